@@ -3,5 +3,6 @@ import Rspirv.Props.C01Words
 import Rspirv.Props.RoundTrip
 import Rspirv.Props.C01End
 import Rspirv.Props.C01Layout
+import Rspirv.Props.C01Full
 /-! C01: module level (`Props/C01.lean`), instruction level (`Props/C01Words.lean`) and reload (`Props/Reload.lean`,
-`Props/RoundTrip.lean`, `Props/C01Layout.lean`) together -/
+`Props/RoundTrip.lean`, `Props/C01Layout.lean`) and the end-to-end statement (`Props/C01Full.lean`) together -/
